@@ -344,12 +344,14 @@ PROPS = {
     },
     "C27": {
         "level": "proof",
-        "rule": "exhaustive, no randomness: 7 layout situations (identical layout size 4 and size 8 with different field offsets -> in-place "
-                "path; larger U, smaller U, T and U zero-sized, only T zero-sized, only U zero-sized -> fallback path) x every length "
-                "0..8 (thorough 0..64) x {no failure, failure at every position k < n} x {Err return, panic caught by catch_unwind}, plus "
-                "boxes for every layout x {ok, err, panic}; the real fallible_map_vec / fallible_map_box are called through the "
-                "cfg(chalk_verif) hook on element types whose destructors log (id, T | U | cb = dropped inside the callback's frame); "
-                "a case is non-trivial when the vector is non-empty (at least one element is mapped or dropped) or it is a box; "
+        "rule": "exhaustive, no randomness: 12 layout / drop-glue situations (in-place path: identical layout size 4, size 8 with different "
+                "field offsets, plain T without destructor -> drop-recording U, drop-recording T -> plain U, plain -> plain; fallback path: "
+                "larger U, plain T -> larger drop-recording U, drop-recording T -> larger plain U, smaller U, T and U zero-sized, only T "
+                "zero-sized, only U zero-sized) x every length 0..8 (thorough 0..64) x {no failure, failure at every position k < n} x "
+                "{Err return, panic caught by catch_unwind}, plus boxes for every situation x {ok, err, panic}; the real fallible_map_vec / "
+                "fallible_map_box are called through the cfg(chalk_verif) hook on element types whose destructors log (id, T | U | cb = "
+                "dropped inside the callback's frame); a type without drop glue (mem::needs_drop false) logs nothing, in the harness and "
+                "in the model (Layout.glueT / glueU); a case is non-trivial when the vector is non-empty or it is a box; "
                 "distinct = distinct request lines",
         "technique": "Lean 4 theorems (induction over the loops of an executable slot/buffer model, all lengths, positions, callbacks) + "
                      "exhaustive differential correspondence of drop multiset and returned contents with chalk-ir/src/fold/in_place.rs",
@@ -358,16 +360,17 @@ PROPS = {
                  "in_place.rs including Drop for VecMappedInPlace on error return and on unwinding, and the into_iter().map().collect() / "
                  "Box::new fallback) never reaches ub (read of a moved-out/dropped/freed slot, drop at the wrong type, double drop, "
                  "double free); on failure the drop log is a permutation of {failing element by the callback, mapped prefix as U, "
-                 "unmapped suffix as T} (one entry per position, no duplicates for distinct ids, nothing left live) and every buffer "
+                 "unmapped suffix as T}, each restricted to the element types that have drop glue (with glue on both types: one entry "
+                 "per position; no duplicates for distinct ids; no slot left live, with or without glue) and every buffer "
                  "ends freed; on success the log is empty and the result owns a buffer holding all mapped values in order. The model "
                  "is tied to the Rust code on every run by exact comparison of exit kind, returned ids and sorted drop log over the "
                  "whole space up to the length bound, and the property is also evaluated directly on the real runs.",
-        "note": "PARTIAL with respect to real memory: the theorems are about slots {liveT, liveU, moved, dropped} and a buffer token "
+        "note": "Destructor runs and leaks of element types without drop glue are unobservable and not claimed. PARTIAL with respect to real memory: the theorems are about slots {liveT, liveU, moved, dropped} and a buffer token "
                 "{owned, freed}; the allocator (sizes/capacities/alignments handed to dealloc inside Vec::from_raw_parts and Box::from_raw, "
                 "reads of uninitialised bytes, pointer provenance) is NOT modelled and not observable by the harness, so a theorem "
                 "about slots cannot exhibit e.g. a dealloc with a wrong layout. The fallback path models std's IntoIter/collect "
                 "abstractly (two buffers); the relative order of std's two destructors is not claimed, only the multiset is compared. "
-                "Supporting evidence outside ./check: the same harness cases (quick tier, 588 runs) executed under "
+                "Supporting evidence outside ./check: the same harness cases (quick tier of the first seven situations, 588 runs) executed under "
                 "`cargo +nightly miri run` with -Zmiri-disable-isolation reported no undefined behaviour and no leak. "
                 "Trusted: Lean kernel, model fidelity (differential, exhaustive up to the bound), the harness's drop-recording types.",
         "correspondence": "InPlace.fallibleMapVec / fallibleMapBox (lean/ChalkModel/InPlace.lean) vs chalk_ir::fold::in_place::{fallible_map_vec, "
@@ -659,10 +662,10 @@ PROPS = {
     },
     'C09': {
         'level': 'other',
-        'rule': "MODEL lines: abstract instances are READ OFF THE REAL CODE (for every goal reachable from the root goals the harness asks chalk for the clauses solve_from_clauses would try - custom clauses, program_clauses_that_could_match, program_clauses_for_env, could_match filter - instantiates each against the goal with the real InferenceTable as Fulfill::new_with_clause does and canonicalizes the conditions as Fulfill::prove does; programs outside the abstraction of FixedPoint.lean are refused and counted) for three families: ground dependency graphs of <= 12 structs over an inductive and a #[coinductive] trait (chains with/without base case, diamonds, one cycle with/without base case entered through a tail, nested SCCs, two SCCs sharing nodes, random graphs; all-inductive / all-coinductive / mixed kinds; several impls per type), goals with unknowns (the F10 family: blanket impls `impl<X> Qi for X where X: Qj` + per trait no or >= 2 facts), and ProgGen programs with closed atomic goals whose goal closure is finite (<= 48 goals). One request line = one SCRIPT of calls on ONE real RecursiveSolver (cache on or off, overflow depth): per call the outcome kind (unique/none/ambig/panic:<site>), the hook's work counter and the hook-dumped cache must equal the model's, exactly. C09 scripts: histories of plain solves with cache on/off plus overflow depths 1,2,3,5 (overflow panics compared). ORACLE (both solvers, no model line): corpus/C09 first (F12, F18, F20 inputs, growing types `impl<T> Foo for T where Vec<T>: Foo`, polymorphic recursion `impl<T> Foo for Vec<T> where Vec<Vec<T>>: Foo`; every limit combination), then generated subjects (ground graphs, unknown-family, ProgGen with growing/polymorphic-recursive impls and 1/3 coinductive traits; 5 goals each: 2 shaped after impl headers with unknowns, 1 free-form with unknowns, 2 closed incl. not/forall/if) x 4 configurations drawn per subject: SLG default, SLG max_size in {3,4,6,10}, recursive default, recursive max_size in {4,8,15,30} x overflow depth in {20,50,100} x cache on/off. Every solve runs in a child process (sharded harness) under a work budget of 50000 steps installed in BOTH engines' cfg(chalk_verif) counters (solve_goal entries + fixed-point rounds; ensure_root_answer iterations) and a 30 s per-call watchdog that aborts the process (the parent reports the case in flight). Non-trivial = instance with a cycle or an outcome other than unique; distinct = distinct request lines",
+        'rule': "MODEL lines: abstract instances are READ OFF THE REAL CODE (for every goal reachable from the root goals the harness asks chalk for the clauses solve_from_clauses would try - custom clauses, program_clauses_that_could_match, program_clauses_for_env, could_match filter - instantiates each against the goal with the real InferenceTable as Fulfill::new_with_clause does and canonicalizes the conditions as Fulfill::prove does; programs outside the abstraction of FixedPoint.lean are refused and counted) for three families: ground dependency graphs of <= 12 structs over an inductive and a #[coinductive] trait (chains with/without base case, diamonds, one cycle with/without base case entered through a tail, nested SCCs, two SCCs sharing nodes, random graphs; all-inductive / all-coinductive / mixed kinds; several impls per type), goals with unknowns (the F10 family: blanket impls `impl<X> Qi for X where X: Qj` + per trait no or >= 2 facts), and ProgGen programs with closed atomic goals whose goal closure is finite (<= 48 goals). One request line = one SCRIPT of calls on ONE real RecursiveSolver (cache on or off, overflow depth): per call the outcome kind (unique/none/ambig/panic:<site>), the hook's work counter and the hook-dumped cache must equal the model's, exactly. C09 scripts: histories of plain solves with cache on/off plus overflow depths 1,2,3,5 (overflow panics compared). ORACLE (both solvers, no model line): corpus/C09 first (F12, F18, F20 inputs, growing types `impl<T> Foo for T where Vec<T>: Foo`, polymorphic recursion `impl<T> Foo for Vec<T> where Vec<Vec<T>>: Foo`; every limit combination), then generated subjects (ground graphs, unknown-family, ProgGen with growing/polymorphic-recursive impls and 1/3 coinductive traits; 5 goals each: 2 shaped after impl headers with unknowns, 1 free-form with unknowns, 2 closed incl. not/forall/if) x 4 configurations drawn per subject: SLG default, SLG max_size in {3,4,6,10}, recursive default, recursive max_size in {4,8,15,30} x overflow depth in {20,50,100} x cache on/off. Every solve runs in a child process (sharded harness) under a work budget (50000 steps recursive, 6000 SLG) installed in BOTH engines' cfg(chalk_verif) counters (solve_goal entries + fixed-point rounds; ensure_root_answer iterations) and a 240 s per-call watchdog that aborts the process (the parent reports the case in flight). Non-trivial = instance with a cycle or an outcome other than unique; distinct = distinct request lines",
         'technique': "Lean 4 theorems about an executable model of the recursive solver's fixed-point/caching framework (bounding mechanisms: depth, loop exit, explicit work bound) + exact differential correspondence of outcome, work counter and cache with the real RecursiveSolver + deterministic work budgets on both real engines in child processes",
         'claim': "PARTIAL by nature (a theorem cannot exhibit a hang of the real schedulers). Proved for the model, all instances: reached_fixed_point_ambig_stops (an ambiguous answer ends the loop of solve_new_subgoal in the same round, whatever fuel is left), fixedPoint_terminates (on the value domain noSolution < unique < ambig a MONOTONE iteration satisfies reached_fixed_point within 3 rounds, 2 from the initial values; fixedPoint_three_rounds_tight), termination_needs_monotone (a non-monotone iteration oscillates for ever: this is F18's negative cycle), work_bounded / call_work_bounded (explicit closed bound workBound(rounds, A, S, depth) on solve_goal entries + loop rounds of one call for every instance, state, oracle and outcome: the stack depth bound of Stack::push makes the nesting finite, each alternative solves each sub-goal at most twice), workBound_attained (the exponential shape is real without the cache: 30, 62, 126 steps for chains of 3, 4, 5 vs 11, 14, 17 with it = F20), acyclic_call_terminates (the property's sentence for ACYCLIC instances of any size: every call without work budget on a solver with any history - answers, interruptions, panics - cache on or off, returns a value when the goal's rank fits under the overflow depth; no assert of the framework fires, every loop runs one round). The hypothesis 'finite height' is what fails for the real substitution-carrying Unique values (F12, remark in Props/C09.lean). OBSERVED on the real code: every solve of every generated subject under every drawn limit returned within the work budget or ended in the permitted recursive 'overflow depth reached' panic, except the known findings. An overflow panic is accepted because on a fresh solver the stack holds exactly the goals of the current search path, so Stack::push panics iff the search is that deep; it is cross-checked by re-running with 8x the depth (must overflow again or finish).",
-        'note': "Findings: F12 (recursive solver, coinductive goal with an unknown: answer grows for ever, native stack overflow) reproduced on the unchanged tree (budget / abort in the child process), REPAIRED in /repo (commit d4bc291: max_size test on the iteration's answer), regression input in corpus/C09. OPEN: F18 recursive_negative_cycle_diverges (lead's finding: cycle through negation never reaches a fixed point; SLG panics 'negative cycle was detected' = F18-slg), F20 recursive_nocache_exponential_reprove (cache disabled: work doubles per level of a growing goal, 2^(max_size+1)), F24 slg_work_budget_exceeded (SLG enumeration exponential in the number of overlapping copies of an impl on an unbounded answer set), and in C10: F23 slg_runaway_after_history. Budgets: 50000 steps recursive, 10000 (much heavier) steps SLG, 90 s per call as last resort. NOT YET THEOREMS (differential only): termination on CYCLIC instances, i.e. monotonicity of the real iteration in the provisional answer (hence that 3 rounds suffice on every instance), absence of the model's assert-panics on cyclic instances, anything about the SLG engine's termination. Trusted: Lean kernel, model fidelity (differential, exact incl. work counter), the hooks' counters, harness.",
+        'note': "Findings: F12 (recursive solver, coinductive goal with an unknown: answer grows for ever, native stack overflow) reproduced on the unchanged tree (budget / abort in the child process), REPAIRED in /repo (commit d4bc291: max_size test on the iteration's answer), regression input in corpus/C09. OPEN: F18 recursive_negative_cycle_diverges (lead's finding: cycle through negation never reaches a fixed point; SLG panics 'negative cycle was detected' = F18-slg), F20 recursive_nocache_exponential_reprove (cache disabled: work doubles per level of a growing goal, 2^(max_size+1)), F24 slg_work_budget_exceeded (SLG enumeration exponential in the number of overlapping copies of an impl on an unbounded answer set), and in C10: F23 slg_runaway_after_history. Budgets: 50000 steps recursive, 6000 (much heavier) steps SLG, 240 s per call as last resort. NOT YET THEOREMS (differential only): termination on CYCLIC instances, i.e. monotonicity of the real iteration in the provisional answer (hence that 3 rounds suffice on every instance), absence of the model's assert-panics on cyclic instances, anything about the SLG engine's termination. Trusted: Lean kernel, model fidelity (differential, exact incl. work counter), the hooks' counters, harness.",
         'correspondence': 'FixedPoint.{solveRootGoal, solveGoal, solveNewSubgoal, solveIteration, solveFromClauses, fulfillSolve} + hook tick (lean/ChalkModel/FixedPoint.lean) vs chalk_recursive::RecursiveSolver::solve_limited on instances read off program_clauses_that_could_match / InferenceTable (outcome kind, work counter, cache entries)',
         'explanation': "bounding mechanisms proved on an exact model; the real engines' termination observed through deterministic work counters in child processes",
     },
